@@ -117,6 +117,7 @@ void harness(void)
 	IA.base.type = SQFS_INODE_CDEV;
 	NA.n.inode = S_ISLNK(IA.base.mode) ? &ISL.i : &IA;
 	ISL.i.base.mode = IA.base.mode;
+	ISL.i.base.type = ND_BOOL() ? SQFS_INODE_SLINK : SQFS_INODE_EXT_SLINK;	/* both symlink inode forms */
 	ISL.t[0] = 'x';
 	NA.n.parent = &ROOT.n;
 	if (S_ISDIR(IA.base.mode)) {
